@@ -127,7 +127,7 @@ def descriptors(fnode, order=None):
 
 def describe(fnode):
     order = local_order(fnode)
-    return {"order": order, "hash": alpha_hash(fnode, order), "desc": descriptors(fnode, order)}
+    return {"order": order, "hash": alpha_hash(fnode, order), "desc": descriptors(fnode, order), "single": single_defs(fnode, order)}
 
 
 _REF = None
@@ -188,10 +188,14 @@ def canonicalise(fnode, qualname, ref_all=None):
         for n in ast.walk(fnode):
             if isinstance(n, ast.Name) and n.id in mp:
                 n.id = mp[n.id]
+    rex = reextract_missing(fnode, ref)
     inl = inline_new_temps(fnode, ref["order"])
-    if inl:
+    if inl or rex:
         mp = dict(mp)
-        mp["<inlined>"] = inl
+        if inl:
+            mp["<inlined>"] = inl
+        if rex:
+            mp["<re-extracted>"] = rex
     return mp
 
 
@@ -357,3 +361,96 @@ def orient(fnode):
     new = _Orient().visit(fnode)
     ast.fix_missing_locations(new)
     return new
+
+
+# -------------------------------------------------------------------------------------------------
+# Re-extraction of reference locals that were inlined away ("inline variable" refactors)
+
+def _blank_dump(node, loc):
+    c = copy.deepcopy(node)
+    for n in ast.walk(c):
+        if isinstance(n, ast.Name) and n.id in loc:
+            n.id = "$"
+        if hasattr(n, "ctx"):
+            n.ctx = ast.Load()
+    return hashlib.sha1(ast.dump(c, annotate_fields=False).encode()).hexdigest()[:16]
+
+
+def single_defs(fnode, order=None):
+    """reference locals bound exactly once, by a plain `R = E` -> blank-dump hash of E"""
+    order = order if order is not None else local_order(fnode)
+    loc = set(order)
+    out = {}
+    for nm in order:
+        binds = [n for n in ast.walk(fnode) if isinstance(n, ast.Name) and n.id == nm and isinstance(n.ctx, ast.Store)]
+        if len(binds) != 1:
+            continue
+        for st in ast.walk(fnode):
+            if isinstance(st, ast.Assign) and len(st.targets) == 1 and st.targets[0] is binds[0]:
+                if not any(isinstance(x, (ast.Yield, ast.YieldFrom, ast.Await, ast.NamedExpr, ast.Lambda)) for x in ast.walk(st.value)) and not isinstance(st.value, (ast.Name, ast.Constant)):
+                    out[nm] = _blank_dump(st.value, loc)
+    return out
+
+
+def reextract_missing(fnode, ref):
+    """A reference local R (bound once by `R = E`) that the current function no longer has, while an expression with the same
+    alpha-invariant shape as E occurs exactly once: re-introduce `R = <that expression>` immediately before the statement that contains it
+    and read R there (the reverse of an "inline variable" refactor).  Returns the list of re-extracted names."""
+    sd = ref.get("single") or {}
+    if not sd:
+        return []
+    done = []
+    for _round in range(30):
+        order = local_order(fnode)
+        loc = set(order) | set(ref["order"])
+        missing = [nm for nm in ref["order"] if nm in sd and nm not in order and not any(isinstance(n, ast.Name) and n.id == nm for n in ast.walk(fnode))]
+        hit = False
+        for nm in missing:
+            want = sd[nm]
+            cands = []
+            for block in _blocks(fnode):
+                for i, st in enumerate(block):
+                    if isinstance(st, (ast.FunctionDef, ast.AsyncFunctionDef, ast.ClassDef)):
+                        continue
+                    # only the statement's own expressions (headers of compound statements), not nested blocks
+                    exprs = []
+                    if isinstance(st, (ast.If, ast.While)):
+                        exprs = [st.test]
+                    elif isinstance(st, ast.For):
+                        exprs = [st.iter]
+                    elif isinstance(st, (ast.With,)):
+                        exprs = [it.context_expr for it in st.items]
+                    elif isinstance(st, (ast.Try, ast.Match)):
+                        exprs = []
+                    else:
+                        exprs = [x for x in ast.iter_child_nodes(st) if isinstance(x, ast.expr)]
+                    for e in exprs:
+                        for x in ast.walk(e):
+                            if isinstance(x, ast.expr) and not isinstance(x, (ast.Name, ast.Constant)) and isinstance(getattr(x, "ctx", ast.Load()), ast.Load) and _blank_dump(x, loc) == want:
+                                cands.append((block, i, st, x))
+            if len(cands) != 1:
+                continue
+            block, i, st, x = cands[0]
+            # not inside a comprehension / lambda of that statement (its free variables would be bound there)
+            inside = False
+            for p in ast.walk(st):
+                if isinstance(p, (ast.ListComp, ast.SetComp, ast.DictComp, ast.GeneratorExp, ast.Lambda)) and p is not x and any(y is x for y in ast.walk(p)):
+                    bound = {t.id for g in getattr(p, "generators", []) for t in ast.walk(g.target) if isinstance(t, ast.Name)}
+                    if bound & {y.id for y in ast.walk(x) if isinstance(y, ast.Name)}:
+                        inside = True
+            if inside:
+                continue
+            new_name = ast.Name(id=nm, ctx=ast.Load())
+            ast.copy_location(new_name, x)
+            if not _replace_node(st, x, new_name):
+                continue
+            asg = ast.Assign(targets=[ast.Name(id=nm, ctx=ast.Store())], value=x)
+            ast.copy_location(asg, st)
+            ast.fix_missing_locations(asg)
+            block.insert(i, asg)
+            done.append(nm)
+            hit = True
+            break
+        if not hit:
+            break
+    return done
